@@ -37,6 +37,7 @@ type fsShared struct {
 	fired    [8]int64                  // fault kinds fired
 	ncalls   int64
 	curOp    [simrt.MaxTasks]int32 // operation each task is executing
+	faulted  [maxOps]bool          // an injected fault fired during this operation
 }
 
 // SimFS is the simulated fs.FS. Files and versions are immutable after construction.
@@ -165,7 +166,15 @@ func (s *SimFS) enter() (FaultSpec, bool) {
 }
 
 //go:norace
-func (s *SimFS) fire(kind string) { s.sh.fired[faultIdx(kind)]++ }
+func (s *SimFS) fire(kind string) {
+	s.sh.fired[faultIdx(kind)]++
+	if op := s.op(); op >= 0 && op < maxOps {
+		s.sh.faulted[op] = true
+	}
+}
+
+// Faulted reports whether an injected fs fault fired during operation op.
+func (s *SimFS) Faulted(op int) bool { return op >= 0 && op < maxOps && s.sh.faulted[op] }
 
 // Observed returns, per file name, the bitmask of versions operation op observed.
 func (s *SimFS) Observed(op int) map[string]uint32 {
